@@ -9,5 +9,5 @@ for x in a b; do
   /verif/tools/seedcheck2.sh $SRC/$x $WT $P $P-$W$x 2>&1
 done
 if [ -f $SRC/c/patch.diff ]; then mkdir -p /verif/benign/$W/$P-${W}c; cp -r $SRC/c/* /verif/benign/$W/$P-${W}c/; echo "== benign copied"; fi
-[ -f $SRC/OBSERVATIONS.md ] && cp $SRC/OBSERVATIONS.md /verif/seeded/OBS-$W-$P.md
+[ -f $SRC/OBSERVATIONS.md ] && mkdir -p /verif/observations && cp $SRC/OBSERVATIONS.md /verif/observations/OBS-$W-$P.md
 true
